@@ -26,6 +26,7 @@ type Obligation struct {
 	Cand   *Assumption     // if this obligation decides a Houdini candidate
 	Tree   *GoalTree       // the goal as a decision tree (optional; same meaning as Goal)
 	fullGoal Term
+	SpecBroken bool // its clause named something that does not resolve in this tree
 	Dead     bool // the path condition is refuted by the assumptions: discharged vacuously
 	seq      int // position in generation order (1-based)
 	Result string          // unsat|sat|unknown
@@ -153,6 +154,7 @@ type Tr struct {
 	predecls  []string
 	unfolded  map[string]bool
 	specErrs  []string
+	errAt     []int // number of obligations that existed when a contract clause failed to evaluate
 	clauseFilter func(c *clause) bool
 	usedContracts map[string]bool
 	closuresSeen []*Closure
